@@ -70,7 +70,7 @@ func checkOrder(repo repository.ClockedRepo, id string) (sig, detail string, d *
 }
 
 func runC03A(tb report.TB, rep *report.Reporter, c worldCase) {
-	w, err := NewWorld(c.Replicas, c.Seed)
+	w, err := NewWorldN(c.Replicas, c.Remotes, c.Seed)
 	if err != nil {
 		tb.Fatalf("harness: world: %v", err)
 	}
@@ -189,8 +189,8 @@ type craftCase struct {
 
 var craftDefects = []string{
 	"none", "none", "none",
-	"parent-clock-equal", "parent-clock-greater", "big-hop-non-merge", "big-hop-merge-legal", "max-hop-legal",
-	"second-root", "no-create-clock", "zero-create-clock", "create-clock-on-non-root-legal", "merge-with-ops",
+	"parent-clock-equal", "parent-clock-greater", "big-hop-non-merge", "big-hop-merge-legal", "huge-hop-merge-legal", "max-hop-legal",
+	"second-root", "second-root-with-create-clock", "no-create-clock", "zero-create-clock", "create-clock-on-non-root-legal", "merge-with-ops",
 	"zero-edit-clock", "no-edit-clock",
 }
 
@@ -428,7 +428,14 @@ func buildCraft(repo repository.RepoData, authors []string, c craftCase, refPref
 		} else {
 			applied = "none"
 		}
-	case "second-root":
+	case "huge-hop-merge-legal":
+		// merge commits are exempt from the hop limit: the times after it may be more than 2^63 above those before
+		if k, ok := pick(merges); ok {
+			shiftFrom(k, []uint64{1<<62 + 3, 1<<63 + 10, 1<<64 - 1000}[c.At%3])
+		} else {
+			applied = "none"
+		}
+	case "second-root", "second-root-with-create-clock":
 		if k, ok := pick(nonMergeChildren); ok {
 			// pack k loses its parent: it becomes a second root, still reachable through its descendants
 			reach := false
@@ -442,6 +449,9 @@ func buildCraft(repo repository.RepoData, authors []string, c craftCase, refPref
 			if reach || k == n-1 {
 				parents[k] = nil
 				extraRoot = k
+				if c.Defect == "second-root-with-create-clock" {
+					createText[k] = "3" // the extra root looks like a genuine first commit
+				}
 				if k == n-1 && n > 1 {
 					applied = "none-head-replaced" // the old history becomes unreachable: a single-commit history
 				}
